@@ -122,6 +122,9 @@ def conv1d_schemas(tier: str, constraint: Any = None) -> List[Schema]:
                          stride=s, padding=p, dilation=dl, groups=G, constraint=constraint),
                 )
             )
+    one, zero = sp.Integer(1), sp.Integer(0)
+    out.append(Schema("conv1d[pointwise: kernel 1, stride 1, padding 0, groups 1]", dict(input=P("input", (N, C, L)), weight=P("weight", (Co, C, one)), bias=P("bias", (Co,)),
+                                                                                       stride=one, padding=zero, dilation=one, groups=one, constraint=constraint)))
     pw = (hyper("p_out"), hyper("p_gin"), hyper("p_gpar"))
     out.append(Schema("conv1d[batched=True,bias=True,scale_power symbolic]", dict(input=P("input", (N, C, L)), weight=P("weight", (Co, Cg, k)), bias=P("bias", (Co,)),
                                                                                   stride=s, padding=p, dilation=dl, groups=G, constraint=constraint, scale_power=pw)))
@@ -209,6 +212,9 @@ def sdpa_schemas(tier: str) -> List[Schema]:
                 if mask:
                     args["attn_mask"] = P("attn_mask", (S, S))
                 out.append(Schema(f"sdpa[lead={len(lead)},causal={causal},mask={mask}]", args))
+    # cross-attention / decoding with a KV cache: the query length differs from the key/value length
+    Sq, Skv = D("Sq"), D("Skv")
+    out.append(Schema("sdpa[cross-attention q_len != kv_len]", dict(query=P("query", (B, H, Sq, Dh)), key=P("key", (B, H, Skv, Dh)), value=P("value", (B, H, Skv, Dh)), is_causal=False, mult=mult, dropout_p=pd)))
     return out
 
 
